@@ -179,6 +179,29 @@ class FileSet:
         return call(self.spec, self.files, variant)
 
 
+def add_sibling(fs, pattern):
+    """a second, different simulation whose source files live in the same directory under similar names (run2 of the same
+    system): returns (spec2, files2, reference2).  Every source has its own default cache, whatever the names have in common."""
+    spec2 = dict(fs.spec)
+    fr = np.array(fs.spec['frames'], float)
+    spec2['frames'] = (np.round((fr + 0.137) % 1.0 * 0.98 + 0.01, 4)).tolist()
+    d2 = tmpdir()
+    files2 = write_files(spec2, d2)
+    ref2 = call(spec2, files2, 'base')
+    sib = {}
+    for key, path in files2.items():
+        if isinstance(path, str) and os.path.isfile(path):
+            base = os.path.basename(path)
+            stem, rest = base.split('.', 1)
+            new = {'dot': f'{stem}.run2.{rest}', 'underscore': f'{stem}_2.{rest}', 'longer': f'{stem}{stem[-1]}.{rest}', 'double-ext': f'{base}.run2.{rest.split(".")[-1]}'}[pattern]
+            shutil.copy(path, os.path.join(fs.dir, new))
+            sib[key] = os.path.join(fs.dir, new)
+        else:
+            sib[key] = path
+    shutil.rmtree(d2, ignore_errors=True)
+    return spec2, sib, ref2
+
+
 # unreadable cache contents that make pickle.load raise different exception families (none of them loads)
 GARBAGE = {
     'garbage-valueerror': b'garbage\n',
@@ -490,8 +513,16 @@ def run_faults(case):
             damage(path, kind, k, full)
             check_recovery(fs, 'base', path, full, f'{L}: fault {kind}{"" if k is None else " at byte " + str(k)}')
             n_faults += 1
-        # argument variants while caches of other variants are present
         labels = [L]
+        if case.get('sibling'):
+            # a second run of the same system in the same directory under a similar name: each source keeps its own trajectory
+            spec2, sib, ref2 = add_sibling(fs, case['sibling'])
+            if not isinstance(ref2, Raised):
+                for rep in range(2):
+                    traj_equal(call(spec2, sib, 'base'), ref2, f'{L}: load {rep} of a second source named {sorted(os.path.basename(v_) for v_ in sib.values() if isinstance(v_, str))} beside the first')
+                    traj_equal(fs.load('base'), fs.reference_fresh('base'), f'{L}: the first source after the second one ({case["sibling"]} naming) was loaded')
+                labels.append('sibling-source-' + case['sibling'])
+        # argument variants while caches of other variants are present
         seen_args = {repr(sorted((k_, repr(x_)) for k_, x_ in call(spec, fs.files, 'base', args_only=True).items()))}
         for v in case['variants']:
             if v not in VARIANTS[L]:
@@ -506,6 +537,16 @@ def run_faults(case):
             if v in DIFFERENT_PARSE[L] and not isinstance(refv, Raised) and not (after - before) and akey not in seen_args:
                 raise Violation('different-options-different-cache-file', f'{L}: variant {v!r} parses differently but used an existing cache file {sorted(after)}')
             seen_args.add(akey)
+            # ... and the cache written for this option set recovers from a fault like the default one does
+            newf = sorted(after - before)
+            if len(newf) == 1 and not isinstance(refv, Raised) and case['faults']:
+                vpath = os.path.join(fs.dir, newf[0])
+                vfull = open(vpath, 'rb').read()
+                f0 = case['faults'][len(labels) % len(case['faults'])]
+                k0 = min(max(int(f0.get('frac', 0) * len(vfull)), 0), len(vfull) - 1) if f0['kind'] == 'truncate' else None
+                damage(vpath, f0['kind'], k0, vfull)
+                check_recovery(fs, v, vpath, vfull, f'{L}: option variant {v!r}, fault {f0["kind"]}{"" if k0 is None else " at byte " + str(k0)} on its own cache')
+                labels.append('variant-cache-fault')
             traj_equal(fs.load('base'), ref, f'{L}: base call after variant {v!r}')
             labels.append('variant-' + v)
         return {'nontrivial': n_faults >= 1, 'labels': labels}
@@ -518,7 +559,7 @@ def fault_cases(draw, tier):
     spec = draw(specs())
     faults = draw(st.lists(st.one_of(st.builds(lambda fr: {'kind': 'truncate', 'frac': fr}, st.floats(0, 1)), st.sampled_from([{'kind': k} for k in FAULT_KINDS])), min_size=1, max_size=5))
     variants = draw(st.lists(st.sampled_from(VARIANTS[spec['loader']][1:]), max_size=3, unique=True))
-    return {'spec': spec, 'faults': faults, 'variants': variants}
+    return {'spec': spec, 'faults': faults, 'variants': variants, 'sibling': draw(st.sampled_from([None, None, 'dot', 'underscore', 'longer', 'double-ext']))}
 
 
 # ----------------------------------------------------------------------------- save / load round trip
